@@ -1124,6 +1124,8 @@ class GitWorkingTree(MutableGitIndexTree, workingtree.WorkingTree):
                 filepath, can_access = osutils.normalized_filename(filepath)
                 if not can_access:
                     raise errors.InvalidNormalization(filepath)
+                if self.is_control_filename(filepath):
+                    raise errors.ForbiddenControlFileError(filename=filepath)
 
                 abspath = self.abspath(filepath)
                 kind = file_kind(abspath)
